@@ -132,6 +132,8 @@ def ev(t, env, cls):
         if hi <= 0:
             return -a
         raise Refine("abs of a form of mixed sign")
+    if k == "call" and callee(t) == "numpy.where" and len(t[2]) == 3:
+        return ev(t[2][1] if truth(t[2][0], env, cls) else t[2][2], env, cls)
     raise Refine("term " + show(t)[:60])
 
 
